@@ -18,7 +18,7 @@ func init() {
 }
 
 func rulesC17(c *Ctx, r *Report) {
-	r.explain("Decides: (TS-HASH) in Add, for every k-mer, the hasher is Reset, then written with exactly that k-mer, then Sum64 is pushed — without the reset a k-mer's hash depends on its predecessors and the sketch on input order; every k-mer of every sequence is pushed; (CANON) the k-mers are sequtil.CanonicalSubsequences(bytes.ToUpper(seq), k) for every given sequence unconditionally — strand and case normalisation — and CanonicalSubsequences itself satisfies the C12 rules (count, windows, minimum by whole-window comparison); (SORT-EXIT) every path from a Push to Add's exit passes mh.Sort(); (DELEG) Sequences returns the sketch it created with New(n) and passed to Add(mh, k, seqs...); Distance is FromJaccard(mh1.Jaccard(mh2), k); (SEED-RO) nothing in the module assigns Seed after initialisation; (FJ) FromJaccard returns 1 for j = 0 and otherwise min(·, 1) of -ln(2j/(1+j))/k. Not decided: bottom-n content and the tail property (gostuff minhash), the Jaccard estimator, symmetry, monotonicity as a numeric fact. Added: every return of Distance is the delegation; (T-COMP) the complement table is a case-preserving involution (strand independence rests on it); TS-HASH follows a k-mer hashing helper. DELEG additionally: every return of Sequences hands back the sketch after Add has run and nothing else touches it; the Add rules are decided on SSA when Add is not two nested range statements.")
+	r.explain("Decides: (TS-HASH) in Add, for every k-mer, the hasher is Reset, then written with exactly that k-mer, then Sum64 is pushed — without the reset a k-mer's hash depends on its predecessors and the sketch on input order; every k-mer of every sequence is pushed; (CANON) the k-mers are sequtil.CanonicalSubsequences(bytes.ToUpper(seq), k) for every given sequence unconditionally — strand and case normalisation — and CanonicalSubsequences itself satisfies the C12 rules (count, windows, minimum by whole-window comparison); (SORT-EXIT) every path from a Push to Add's exit passes mh.Sort(); (DELEG) Sequences returns the sketch it created with New(n) and passed to Add(mh, k, seqs...); Distance is FromJaccard(mh1.Jaccard(mh2), k); (SEED-RO) nothing in the module assigns Seed after initialisation; (FJ) FromJaccard returns 1 for j = 0 and otherwise min(·, 1) of -ln(2j/(1+j))/k. Not decided: bottom-n content and the tail property (gostuff minhash), the Jaccard estimator, symmetry, monotonicity as a numeric fact. Added: every return of Distance is the delegation; (T-COMP) the complement table is a case-preserving involution (strand independence rests on it); TS-HASH follows a k-mer hashing helper. DELEG additionally: every return of Sequences hands back the sketch after Add has run and nothing else touches it; the Add rules are decided on SSA when Add is not two nested range statements. The only call Distance makes on its sketches is Jaccard.")
 	r.assume("gostuff minhash keeps the n smallest distinct values pushed; murmur3's Hash64 is a function of the bytes written since Reset")
 	rulesMashAdd(c, r)
 	rulesCanonical(c, r)
